@@ -33,7 +33,7 @@ impl Display for Variable {
     fn fmt(&self, f: &mut std::fmt::Formatter<'_>) -> std::fmt::Result {
         match self {
             Variable::Variable(name) => {
-                if name.contains("_") {
+                if crate::utils::is_escaped_variable_name(name) {
                     //if it's a variable to be escaped
                     write!(f, "\\{}", name)
                 } else {
